@@ -22,6 +22,11 @@
 (*             | OSError at the n-th write                                 *)
 (*   pre       the directory before the call: name -> "absent" | "old" |   *)
 (*             "empty" | "dir"                                             *)
+(*   inplace   the config is saved back into the directory it was loaded   *)
+(*             from (load, edit, save with overwrite): pre then holds the  *)
+(*             files the config came from, each with its component's       *)
+(*             content, and the source of a save_path_content file IS the  *)
+(*             file that is written                                        *)
 (*                                                                         *)
 (* Contents: "absent", "dir", "old" (the user's data), "empty" (zero       *)
 (* bytes), or the key of the component whose dump the file holds ("main"   *)
@@ -135,8 +140,12 @@ MSubDump(sc, s) ==
   ELSE Goto(s, "m_sub_open")
 \* :937 / :943  with open(val_path.absolute, "w") as f
 MSubOpen(sc, s) == OpenW(sc, s, SubName(Cur(sc, s)), "m_sub_write")
-\* :938 / :944  f.write(val_str) / f.write(val.get_content())
-MSubWrite(sc, s) == WriteClose(sc, s, SubName(Cur(sc, s)), SubKey(Cur(sc, s)), "m_sub_replace")
+\* :938 / :944  f.write(val_str) / f.write(val.get_content()).  For a save_path_content file the content is read
+\* AFTER :943 opened the destination: saved in place, the source is that very file, just truncated
+\*                                                                              (deviation InplaceContentEmptied)
+Written(sc, s) == LET x == Cur(sc, s) IN
+                  IF SubKind(x) = "content" /\ sc.inplace /\ Variant = "code" THEN s.fs[SubName(x)] ELSE SubKey(x)
+MSubWrite(sc, s) == WriteClose(sc, s, SubName(Cur(sc, s)), Written(sc, s), "m_sub_replace")
 \* :939 / :945  cfg[key] = basename -- the main document now refers to the file by name
 MSubReplace(sc, s) == [s EXCEPT !.i = s.i + 1, !.pc = "m_sub"]
 \* :950  with open(path_fc.absolute, "w") as f -- again opened before dump()           (deviation OpenBeforeDump)
@@ -234,10 +243,16 @@ DevMultiWrittenBeforeDump(sc, r) ==
 Collision(sc) ==
   sc.multifile /\ \/ \E a, b \in 1..Len(sc.subs) : a # b /\ SubName(sc.subs[a]) = SubName(sc.subs[b])
                   \/ \E a \in 1..Len(sc.subs) : SubName(sc.subs[a]) = "main"
+\* multi-file, in place: the file behind a save_path_content value is emptied (everything else is as it should be)
+DevInplaceContentEmptied(sc, r) ==
+  /\ sc.multifile /\ sc.inplace /\ r.pc = "done" /\ r.fs["main"] = "main"
+  /\ \E x \in Range(sc.subs) : SubKind(x) = "content"
+  /\ \A x \in Range(sc.subs) : r.fs[SubName(x)] = (IF SubKind(x) = "content" THEN "empty" ELSE SubKey(x))
 DevName(sc, r) ==
   IF r.pc = "failed" /\ r.fs # sc.pre /\ DevSingleOpenBeforeDump(sc, r) THEN "single-open-before-dump"
   ELSE IF r.pc = "failed" /\ r.fs # sc.pre /\ DevMultiWrittenBeforeDump(sc, r)
        THEN (IF r.i > Len(sc.subs) THEN "multi-written-before-main-dump" ELSE "multi-written-before-sub-dump")
   ELSE IF r.pc = "done" /\ Collision(sc) /\ ~Reparses(sc, r.fs) THEN "multi-name-collision"
+  ELSE IF DevInplaceContentEmptied(sc, r) THEN "inplace-content-emptied"
   ELSE "none"
 =============================================================================
